@@ -68,7 +68,7 @@ var malformedTimeouts = map[string][]string{
 
 var grayTimeouts = map[string][]string{
 	ProtoGRPC:    {"+1S", "099999999S", "000000000001S", "100000000S", "999999999999n"},
-	ProtoConnect: {"+5", "10000000000", "99999999999999999999", "00000000001", "9223372036854775807"},
+	ProtoConnect: {"+5", "18446744073710", "20000000000000", "40000000000000", "9223372036855", "30000000000000", "18446744073709552", "10000000000", "99999999999999999999", "00000000001", "9223372036854775807"},
 	ProtoREST:    {"NaN", "Inf", "-1", "-0", "1e3", "1E-3", "0x10", "+5", ".5", "5.", "1_000", "1e400", "0.0000000001", "123456789012345678901234567890"},
 }
 
@@ -230,7 +230,20 @@ func checkC12(sc *Scenario) *CheckResult {
 		}
 	}
 	if sc.Note == "gray" {
-		return res
+		// over-long but purely numeric values still have one sensible reading: the number
+		var ok2 bool
+		switch {
+		case cp == ProtoConnect && regexp.MustCompile(`^[0-9]+$`).MatchString(c.Timeout):
+			n, _ := new(big.Int).SetString(c.Timeout, 10)
+			dc, ok2 = new(big.Rat).SetInt(new(big.Int).Mul(n, big.NewInt(1000000))), true
+		case (cp == ProtoGRPC || cp == ProtoGRPCWeb) && regexp.MustCompile(`^[0-9]+[HMSmun]$`).MatchString(c.Timeout):
+			n, _ := new(big.Int).SetString(c.Timeout[:len(c.Timeout)-1], 10)
+			dc, ok2 = new(big.Rat).SetInt(new(big.Int).Mul(n, big.NewInt(unitNanos[c.Timeout[len(c.Timeout)-1:]]))), true
+		}
+		if !ok2 || samePassThrough {
+			return res
+		}
+		res.class("gray_numeric")
 	}
 	res.NonTrivial = cp != view.Protocol && dc.Sign() > 0 && !(cp == ProtoGRPCWeb && view.Protocol == ProtoGRPC) && !(cp == ProtoGRPC && view.Protocol == ProtoGRPCWeb)
 	if !view.HasTimeout {
@@ -253,6 +266,12 @@ func checkC12(sc *Scenario) *CheckResult {
 	if short.Cmp(unit) >= 0 {
 		if mx := targetMax(view.Protocol); mx != nil && dc.Cmp(mx) > 0 && db.Cmp(mx) == 0 {
 			res.class("clamped")
+			return res
+		}
+		// beyond what a 64-bit nanosecond duration can hold: any clamp that is still above the
+		// documented practical threshold counts as "clamped to the representable range"
+		if dc.Cmp(new(big.Rat).SetInt64(1<<63-1)) > 0 && db.Cmp(eightHours) > 0 {
+			res.class("clamped_representable")
 			return res
 		}
 		res.violate("timeout_shortened", "c12:shortened", "client timeout %q = %s ns reached the %s backend as %q = %s ns: short by %s ns, rounding unit is %s ns", c.Timeout, dc.FloatString(3), view.Protocol, view.Timeout, db.FloatString(3), short.FloatString(3), unit.FloatString(3))
